@@ -32,7 +32,7 @@ SCHED_PLANS = {
     "C01": SAFE + FIND + [("delay", 40, 800)],
     "C02": SAFE + FIND,
     "C03": [("base", 200, 4000), ("uwg", 60, 1000), ("manual", 80, 1500), ("tall", 30, 400), ("tail", 150, 3000), ("pop", 80, 1500), ("queue", 60, 1500), ("nq", 40, 800)],
-    "C05": [("many", 3, 30), ("delay", 40, 800), ("fault", 100, 2000), ("base", 200, 4000), ("pop", 80, 1500), ("queue", 80, 1500), ("stop", 40, 1000), ("nq", 60, 1200)],
+    "C05": [("many", 3, 30), ("delay", 40, 800), ("fault", 100, 2000), ("base", 200, 4000), ("pop", 80, 1500), ("queue", 80, 1500), ("stop", 40, 1000), ("nq", 60, 1200), ("latewindow", 30, 600), ("manualqueue", 30, 600)],
     "C06": [("prio", 150, 3000), ("base", 250, 5000), ("pop", 100, 2000), ("queue", 80, 1500), ("stop", 40, 800), ("manualqueue", 40, 800), ("latequeue", 30, 600), ("heap", 60, 1200), ("latewindow", 30, 600)],
     "C11": SAFE + [("fault", 80, 1500)],
     "C12": [("narrow", 80, 1500), ("base", 250, 5000), ("pop", 60, 1000), ("queue", 60, 1000), ("stop", 40, 800), ("nq", 40, 800)],
@@ -682,7 +682,8 @@ PARTS["C04"] = PARTS["C04"] + [twins_part]
 PARTS["C10"] = PARTS["C10"] + [twins_part, stress_part]
 PARTS["C11"] = PARTS["C11"] + [stress_part]
 PARTS["C18"] = [sched_part, core_part, term_part]
-PARTS["C07"] = [fill_part]
+SCHED_PLANS["C07"] = [("overtall", 60, 1000), ("narrow", 60, 1000), ("tall", 30, 400), ("base", 60, 1000)]
+PARTS["C07"] = [fill_part, sched_part]
 PARTS["C08"] = [fill_part]
 LEVEL = {"C15": "fault_enumeration"}
 
